@@ -50,7 +50,11 @@ pub fn run_c04(cx: &Ctx) -> i32 {
             }
         }
     }
-    let space = Space::new().exh("common", g, k).list("flag-inside-group", scoped);
+    // common-syntax contexts around a word boundary (the only way common syntax reaches the VM):
+    // the filler is delegated as one piece next to the boundary
+    let quick = cx.quick();
+    let common_ctx = move |c: &space::Context| if quick { ["\\b□", "□\\b", "\\B□\\B"].contains(&c.name) } else { ["□", "x□", "□x", "\\b□", "□\\b", "\\B□\\B"].contains(&c.name) };
+    let space = Space::new().exh("common", g, k).list("flag-inside-group", scoped).ctxfill(3, 1, &common_ctx);
     let prefixes: Vec<&str> = vec!["", "(?i)", "(?m)", "(?s)", "(?x)", "(?U)"];
     let alphabet = vec!['a', 'A', 'b', 'é', '\n'];
     let max_len = 3;
@@ -186,8 +190,9 @@ pub fn run_c04(cx: &Ctx) -> i32 {
                                 mismatch(&mut t, text, 0, &format!("splitn({})", n), e_sn, g_sn, &sn_of);
                             }
                         }
-                        for n in 0..=3usize {
-                            for tpl in TEMPLATES {
+                        let max_limit = if quick { 2usize } else { 3 };
+                        for n in 0..=max_limit {
+                            for tpl in TEMPLATES.iter().take(if quick { 4 } else { TEMPLATES.len() }) {
                                 t.evaluations += 1;
                                 let e = rx.replacen(text, n, *tpl);
                                 let e_s = format!("{:?} borrowed={}", e, matches!(e, std::borrow::Cow::Borrowed(_)));
@@ -241,7 +246,7 @@ pub fn run_c04(cx: &Ctx) -> i32 {
         t,
         Finish {
             rule: format!(
-                "every common-syntax pattern of {} (classes, anchors, \\b \\B, groups numbered and named, greedy/lazy quantifiers, inline flag directives as atoms at any position) x flag prefixes {:?} x every text over {:?} up to length {}; oracle: regex::Regex built from the identical string; compared value by value: captures_len, capture_names, is_match, find_from_pos and captures_from_pos at every offset, find_iter, captures_iter, split, splitn(0..3), replacen(0..3) with templates {:?}, a closure and NoExpand (including Cow borrowed-ness); patterns the regex crate rejects are skipped; non-trivial = (pattern,text) with at least one match",
+                "every common-syntax pattern of {} (classes, anchors, \\b \\B, groups numbered and named, greedy/lazy quantifiers, inline flag directives as atoms at any position) x flag prefixes {:?} x every text over {:?} up to length {}; oracle: regex::Regex built from the identical string; compared value by value: captures_len, capture_names, is_match, find_from_pos and captures_from_pos at every offset, find_iter, captures_iter, split, splitn(0..3), replacen(0..3; quick tier 0..2 and the first four templates) with templates {:?}, a closure and NoExpand (including Cow borrowed-ness); patterns the regex crate rejects are skipped; non-trivial = (pattern,text) with at least one match",
                 space.describe(), prefixes, alphabet, max_len, TEMPLATES
             ),
             exhaustive: true,
